@@ -10,13 +10,44 @@ for meta in sorted(glob.glob("/verif/seeded/*/meta.json")):
     m = json.load(open(meta))
     d = os.path.dirname(meta)
     for s in seeds:
-        items.append((m["seed_id"], m["property"], os.path.join(d, "patch.diff"), s))
+        items.append((m["seed_id"], m["property"], os.path.join(d, "patch.diff"), s, m.get("base_commit")))
+
+
+_bases = {}
+_control = {}
+
+
+def base_tree(commit):
+    """Export of the commit a seeded change was written against (for patches that collide with a later fix)."""
+    if commit not in _bases:
+        d = f"/tmp/vbase-{commit}"
+        if not os.path.isdir(d):
+            os.makedirs(d)
+            subprocess.run(f"git -C /repo archive {commit} | tar -x -C {d}", shell=True, check=True)
+        _bases[commit] = d
+    return _bases[commit]
 
 
 def run(it):
-    sid, prop, patch, seed = it
+    sid, prop, patch, seed, base = it
     r = subprocess.run(["/verif/tools/with_patch.sh", patch, prop, "quick", "--seed", str(seed)], capture_output=True, text=True)
     out = r.stdout
+    if "PATCH-FAILED" in out and base:
+        r = subprocess.run(["/verif/tools/with_patch.sh", patch, prop, "quick", "--seed", str(seed)], capture_output=True, text=True,
+                           env=dict(os.environ, VERIF_BASE=base_tree(base)))
+        out = r.stdout
+        if "exit=1" in out:
+            # control: the base commit itself (which lacks later fixes) must be quiet for this check and seed
+            key = (base, prop, seed)
+            if key not in _control:
+                empty = "/tmp/vbase-empty.diff"
+                open(empty, "w").close()
+                c = subprocess.run(f"cd /verif && VERIF_REPO={base_tree(base)} /venv/bin/python -m vcheck.run {prop} --tier quick --seed {seed}",
+                                   shell=True, capture_output=True, text=True)
+                _control[key] = c.returncode
+            if _control[key] == 0:
+                return sid, seed, "caught (on its base commit %s)" % base
+            return sid, seed, "confounded (base commit %s itself is reported by today's check)" % base
     status = "caught" if "exit=1" in out else ("PATCH-FAILED" if "PATCH-FAILED" in out else ("missed" if "exit=0" in out else "error"))
     return sid, seed, status
 
@@ -28,4 +59,7 @@ with ThreadPoolExecutor(max_workers=jobs) as ex:
         print(sid, seed, status, flush=True)
 json.dump(res, open("/verif/docs/seed_matrix.json", "w"), indent=1, sort_keys=True)
 tot = sum(len(v) for v in res.values())
-print(sum(1 for v in res.values() for s in v.values() if s == "caught"), "/", tot, "caught")
+print(sum(1 for v in res.values() for s in v.values() if s.startswith("caught")), "/", tot, "caught")
+import shutil
+for d in _bases.values():
+    shutil.rmtree(d, ignore_errors=True)
